@@ -283,10 +283,29 @@ open VL VL.Condorcet VL.C10
 
 /-- **Benham: ballot-order independence** — every profile, no well-formedness assumption: the same exception, or
     equivalent selections (the same winner, or the same tie as a set) -/
-theorem benham_perm {p₁ p₂ : Profile} (h : p₁.Perm p₂) : ExceptEquiv SlotsEquiv (benham p₁) (benham p₂) := by
-  unfold benham
+theorem benhamCore_perm {p₁ p₂ : Profile} (h : p₁.Perm p₂) : ExceptEquiv SlotsEquiv (benhamCore p₁) (benhamCore p₂) := by
+  unfold benhamCore
   rw [(Hyb.allRanked_perm h).length_eq]
   exact Hyb.benhamLoop_perm h _ _ _ h
+
+/-- a permutation of a one-element list is that list: the lone-candidate test of the repaired evaluators (fixes 1230cf6,
+    bddde61) gives the same answer for both presentations -/
+theorem lone_of_perm {A₁ A₂ : List Cand} (h : A₁.Perm A₂) (c : Cand) : A₁ = [c] ↔ A₂ = [c] :=
+  ⟨fun e => List.perm_singleton.mp (e ▸ h).symm, fun e => List.perm_singleton.mp (e ▸ h)⟩
+
+theorem slotsEquiv_single_cand (c : Cand) : SlotsEquiv [Slot.cand c] [Slot.cand c] :=
+  ⟨[c], [c], [], [], 0, rfl, rfl, List.Perm.refl _, List.Perm.refl _⟩
+
+theorem benham_perm {p₁ p₂ : Profile} (h : p₁.Perm p₂) : ExceptEquiv SlotsEquiv (benham p₁) (benham p₂) := by
+  have hA := Hyb.allRanked_perm h
+  by_cases hl : ∃ c, allRankedCandidates p₁ = [c]
+  · obtain ⟨c, hc⟩ := hl
+    rw [benham_lone hc, benham_lone ((lone_of_perm hA c).mp hc)]
+    exact slotsEquiv_single_cand c
+  · have h1 : ∀ c, allRankedCandidates p₁ ≠ [c] := fun c e => hl ⟨c, e⟩
+    have h2 : ∀ c, allRankedCandidates p₂ ≠ [c] := fun c e => hl ⟨c, (lone_of_perm hA c).mpr e⟩
+    rw [benham_of_not_lone h1, benham_of_not_lone h2]
+    exact benhamCore_perm h
 
 example : ([([RankItem.one 0, .one 1, .one 2], (2 : Rat)), ([.one 1, .one 2, .one 0], 2), ([.one 2, .one 0, .one 1], 2)] :
     Profile).Perm [([RankItem.one 2, .one 0, .one 1], (2 : Rat)), ([.one 0, .one 1, .one 2], 2), ([.one 1, .one 2, .one 0], 2)] := by
